@@ -39,6 +39,22 @@ def semOp (progS : Sexp) (valsS : List Sexp) : Sexp :=
         .list [.atom "bits", .list [.atom name, .str (bitsOf env rt vals)]]
   | _, _ => .list [.atom "model-decode-error"]
 
+/-- `(semstrict id prog files values)`: default and strict acceptance of the validator compiled from a semantic
+operator (C11 on types that went through the semantic engine and were materialised again) -/
+def semStrictOp (progS : Sexp) (valsS : List Sexp) : Sexp :=
+  match decSemProg progS, valsS.mapM decVal with
+  | some (decls, name, e), some vals =>
+    match Sem.evalSemExpr decls e with
+    | none => .atom "model-nofuel"
+    | some none => .list [.atom "diags"]
+    | some (some r) =>
+      if hasNot r.schema || r.named.any (fun p => hasNot p.2) then .list [.atom "model-not-printable"]
+      else
+        let env := IR.printEnv r.named
+        let rt := IR.print r.named 200 r.schema
+        .list [.atom "bits", .list [.atom name, .str (bitsOfStrict env rt false vals), .str (bitsOfStrict env rt true vals)]]
+  | _, _ => .list [.atom "model-decode-error"]
+
 mutual
 def outsideUniverse : JsVal → Bool
   | .func | .sym | .protoObj _ => true
@@ -80,5 +96,39 @@ def semSpec (progS : Sexp) (valsS : List Sexp) : Sexp :=
       | some true => '1' | some false => '0' | none => '?'))]],
       .list (.atom "hyp-failed" :: (if noUnion then [] else [Sexp.atom "NoObjectUnionOnLeft"]))]
   | _, _ => .list [.atom "spec-decode-error"]
+
+/-- second channel of `semstrict`: `1` where strict acceptance is owed — the value is an EXACT member (declared keys and
+index signatures only, at every depth) of a member of the left operand of `Exclude` and is not in the right operand at
+all: it then belongs to the difference, with no key the surviving member does not declare; `?` elsewhere -/
+def semStrictSpec (progS : Sexp) (valsS : List Sexp) : Sexp :=
+  match decSemProg progS, valsS.mapM decVal with
+  | some (decls, name, e), some vals =>
+    let owed (v : JsVal) : Bool := match e with
+      | .exclude a b => !hasNullish v && !outsideUniverse v &&
+          (SubSpec.excludeMembers decls a).any fun m =>
+            SubSpec.memR decls true 40 m v == some true && Spec.mem decls 200 b v == some false
+      | _ => false
+    let noUnion := match e with
+      | .exclude a _ => SubSpec.noObjectUnion decls 100 a
+      | _ => true
+    .list [.list [.atom "spec", .list [.atom name, .str (String.ofList (vals.map fun v => if owed v then '1' else '?'))]],
+      .list (.atom "hyp-failed" :: (if noUnion then [] else [Sexp.atom "NoObjectUnionOnLeft"]))]
+  | _, _ => .list [.atom "spec-decode-error"]
+
+/-- second channel of `(pschema id prog files values)` (C02 on compiled validators): the schema hypotheses, evaluated on
+the validator the compiler MODEL produces for the first export -/
+def progSchemaHyps (progS : Sexp) : Sexp :=
+  match decProg progS with
+  | some p =>
+    match compile p with
+    | .ok env ((_, rt0) :: _) =>
+      .list (.atom "hyp-failed" ::
+        ((if RT.noRequiredUndefAccepting env rt0 then [] else [Sexp.atom "NoRequiredUndefinedAcceptingProp"]) ++
+         (if RT.noSplitIntersection env rt0 then [] else [Sexp.atom "NoSplitIntersection"]) ++
+         (if RT.noMultiValuedDiscriminator env rt0 then [] else [Sexp.atom "NoMultiValuedDiscriminator"]) ++
+         (if RT.noMixedIndexRT env rt0 then [] else [Sexp.atom "NoMixedIndexRT"]) ++
+         (if RT.noProtoNamedProps env rt0 then [] else [Sexp.atom "NoProtoNamedKeys"])))
+    | _ => .list [.atom "hyp-failed", .atom "ModelDoesNotCompile"]
+  | none => .list [.atom "hyp-failed", .atom "ModelDoesNotCompile"]
 
 end BeffVerif.Driver
